@@ -164,8 +164,8 @@ def parse_template(lines):
                 m = re.match(r'^//@fn\s+(\S+)\s+(.*)$', s)
                 spec = FnSpec('fn', m.group(1), parse_target(m.group(2)))
             else:
-                m = re.match(r'^//@block\s+(\S+)\s+(.*?)\s+loop\s+(\d+)\s+as\s+(.*)$', s)
-                spec = FnSpec('block', m.group(1), parse_target(m.group(2)), (int(m.group(3)), m.group(4)))
+                m = re.match(r'^//@block\s+(\S+)\s+(.*?)\s+(loop|match)\s+(\d+)\s+as\s+(.*)$', s)
+                spec = FnSpec('block', m.group(1), parse_target(m.group(2)), (int(m.group(4)), m.group(5), m.group(3)))
             spec.line = i + 1
             i += 1
             last = None
@@ -326,6 +326,8 @@ R4_RULES = [
     ('R4-chain3', r'(?P<a>\w+)\s*\.\s*payload\s*\.\s*iter\(\)\s*\.\s*cloned\(\)\s*\.\s*chain\(\s*(?P<b>\w+)\.payload\.iter\(\)\.cloned\(\)\s*\)\s*\.\s*chain\(\s*(?P<c>\w+)\.payload\.iter\(\)\.cloned\(\)\s*\)\s*\.\s*collect\(\)',
      r'vx_chain3_collect(&\g<a>.payload, &\g<b>.payload, &\g<c>.payload)', None),
     ('R11-eta', r'\.\s*map_err\s*\(\s*(?P<c>[A-Z]\w*::[A-Z]\w*)\s*\)', r'.map_err(|e| \g<c>(e))', None),
+    ('R4-map-unwrap', r'(?P<e>\b\w+)\s*\.\s*map\s*\(\s*\|\s*x\s*\|\s*x\s*\.\s*unwrap\s*\(\s*\)\s*\)', r'vx_map_unwrap(\g<e>)', None),
+    ('R4-oneshot-await', r'\breceiver\s*\.\s*await', r'receiver.vx_recv().await', None),
     ('R4-retain-ge', r'\.\s*retain\s*\(\s*\|\s*k\s*,\s*_\s*\|\s*k\s*>=\s*(?P<r>\w+)\s*\)', r'.vx_retain_keys_ge(\g<r>)', None),
     ('R4-get-map-or-else-stake', r'(?P<e>%s)\s*\.\s*get\s*\(\s*(?P<k>\w+)\s*\)\s*\.\s*map_or_else\s*\(\s*\|\s*\|\s*0\s*,\s*\|\s*x\s*\|\s*x\s*\.\s*stake\s*\)' % _E,
      r'(match \g<e>.get(\g<k>) { None => 0, Some(x) => x.stake })', None),
@@ -567,7 +569,10 @@ class FnEmitter:
                 pat = r'\s*'.join(re.escape(x.text) for x in lex(cl.anchor))
                 ms = list(re.finditer(pat, text))
                 if len(ms) != 1:
-                    raise GenError('lost anchor: %r matches %d times in %s' % (cl.anchor, len(ms), spec.qname), spec.qname)
+                    # a proof hint whose anchor statement is gone or ambiguous is dropped, not fatal: the property
+                    # clauses are still checked; proof-internal failures of this function then count as undecided
+                    self.lost_hints.append('%s (anchor %r matches %d times)' % (cl.cid, cl.anchor, len(ms)))
+                    continue
                 m = ms[0]
                 pos = body_src_a + (m.start() if cl.kind == 'before' else m.end())
                 edits.append(Edit(pos, pos, '\n' + self.ghost(cl) + '\n', rule='ghost'))
@@ -802,6 +807,7 @@ class FnEmitter:
         self.ghost_lines = []
         self.probe_mode = probe
         self.only_point = only_point
+        self.lost_hints = []
         self.probe_ids = []
         item = self.locate()
         if spec.mode == 'fn':
@@ -871,16 +877,29 @@ class FnEmitter:
         else:
             # R5: lift the n-th loop statement
             sub = toks[item.body_open:item.body_close + 1]
-            loops = find_loops(sub)
-            n_, sigtxt = spec.lift
-            if n_ > len(loops):
-                raise GenError('lost anchor: loop %d for lifted block %s' % (n_, spec.qname), spec.qname)
-            (k, o, c, label) = loops[n_ - 1]
-            k += item.body_open
-            c += item.body_open
-            first = k if label is None else label + item.body_open
+            n_, sigtxt, kind_ = spec.lift
+            if kind_ == 'loop':
+                loops = find_loops(sub)
+                if n_ > len(loops):
+                    raise GenError('lost anchor: loop %d for lifted block %s' % (n_, spec.qname), spec.qname)
+                (k, o, c, label) = loops[n_ - 1]
+                k += item.body_open
+                c += item.body_open
+                first = k if label is None else label + item.body_open
+            else:
+                ms_ = [z for z in range(item.body_open, item.body_close) if toks[z].kind == 'ident' and toks[z].text == 'match'
+                       and toks[z - 1].text not in ('.', '::')]
+                if n_ > len(ms_):
+                    raise GenError('lost anchor: match %d for lifted block %s' % (n_, spec.qname), spec.qname)
+                first = ms_[n_ - 1]
+                z = first + 1
+                while toks[z].text != '{':
+                    if toks[z].text in ('(', '['):
+                        z = match_close(toks, z)
+                    z += 1
+                c = match_close(toks, z)
             head = sigtxt
-            self.fire('R5', 'loop %d of %s lifted into %s' % (n_, '%s::%s' % (spec.target[0], spec.target[2]), spec.qname))
+            self.fire('R5', '%s %d of %s lifted into %s' % (kind_, n_, '%s::%s' % (spec.target[0], spec.target[2]), spec.qname))
             edits = self.body_edits(first, c)
             body = '{\n    ' + apply_edits(src, toks[first].start, toks[c].end, edits) + '\n}'
             orig = src[toks[first].start:toks[c].end]
@@ -935,6 +954,7 @@ class FnEmitter:
             'fired': self.fired,
             'orig': orig,
             'probe_ids': list(self.probe_ids),
+            'lost_hints': list(self.lost_hints),
         }
         return lines, rec
 
